@@ -27,9 +27,10 @@ func init() {
 		"The end-to-end row set needs evaluation of predicates on values; duplicates from repeated/overlapping IN literals and literal-on-the-left comparisons are not structurally decidable (DESIGN.md §6).")
 	propTable["C01"].KeyFilter["NOROWDROP"] = keyHas("ScanPlan", "MultiGetPlan", "ProjectionPlan")
 
-	prop("C02", []string{"PLANMAP", "ROUTE", "NARROWONLYKEY", "SELECTMINMAX", "ROLECHAIN", "FILTERED", "RMGUARD", "NOROWDROP", "GETNIL", "RANGEALG", "STICKYFLAG"},
-		"Structural necessary conditions of C02: ROUTE (an operator reaches only the region handler its executor semantics justify; anything else is FULL), NARROWONLYKEY (a narrowing region only for atoms on `key`, with bounds taken from the atom's literals), SELECTMINMAX (OR falls back to the wider operand), PLANMAP (scan kinds map to the matching plan, ill-formed cases to the full scan, and the access path is not replaced afterwards), ROLECHAIN (start/end/prefix reach Seek and the stop tests in the right roles, inclusive end, nil-guarded), FILTERED (over-approximated regions are harmless because every pair is filtered), RMGUARD (DELETE drops the filter only for pure key sets), NOROWDROP/GETNIL (no consumed row or empty-valued pair is lost on the narrowed paths). STICKYFLAG (an IN list or BETWEEN pair narrows the scan only if every element is a literal; the flag recording that is never set back by a later element).",
+	prop("C02", []string{"PLANMAP", "ROUTE", "NARROWONLYKEY", "SELECTMINMAX", "ROLECHAIN", "FILTERED", "RMGUARD", "NOROWDROP", "GETNIL", "RANGEALG", "STICKYFLAG", "PREFIXALG"},
+		"Structural necessary conditions of C02: ROUTE (an operator reaches only the region handler its executor semantics justify; anything else is FULL), NARROWONLYKEY (a narrowing region only for atoms on `key`, with bounds taken from the atom's literals), SELECTMINMAX (OR falls back to the wider operand), PLANMAP (scan kinds map to the matching plan, ill-formed cases to the full scan, and the access path is not replaced afterwards), ROLECHAIN (start/end/prefix reach Seek and the stop tests in the right roles, inclusive end, nil-guarded), FILTERED (over-approximated regions are harmless because every pair is filtered), RMGUARD (DELETE drops the filter only for pure key sets), NOROWDROP/GETNIL (no consumed row or empty-valued pair is lost on the narrowed paths). STICKYFLAG (an IN list or BETWEEN pair narrows the scan only if every element is a literal; the flag recording that is never set back by a later element). PREFIXALG (the prefix members of the algebra, over all order/prefix structures of the operands: AND keeps every key both operands contain, OR every key of either).",
 		"The interval case analysis of union*/intersection*/inRange and the side of the literal ('b' > key) depend on order relations among literals (DESIGN.md §6).")
+	propTable["C02"].KeyFilter["PREFIXALG"] = keyHas("|sound", "|interpretable")
 	propTable["C02"].KeyFilter["SELECTMINMAX"] = keyHas("|OR|")
 	propTable["C02"].KeyFilter["STICKYFLAG"] = keyHas("FilterOptimizer")
 	propTable["C02"].KeyFilter["NOROWDROP"] = keyHas("ScanPlan", "MultiGetPlan")
@@ -86,18 +87,18 @@ func init() {
 	propTable["C11"].KeyFilter["CONSUMED"] = keyHas("(*LimitPlan)")
 	propTable["C11"].KeyFilter["LIMITMAP"] = keyHas("LimitPlan", "parse|")
 
-	prop("C12", []string{"EXECONCE", "WRITEONCE", "PUTKEYFLOW", "KWFLAGS", "MUTSITE", "CHILDVISIT"},
-		"Structural necessary conditions of C12: EXECONCE (writes happen only while executed == false, which is set on every path after they start and reset only by Init), WRITEONCE (one storage write per PUT/REMOVE, outside any loop, with every expression evaluated before it), PUTKEYFLOW (each value expression sees its own pair's evaluated key; pairs reach BatchPut in statement order, untouched by any other call), KWFLAGS and CHILDVISIT(Validate) (the static restrictions are wired and every key/value expression is checked), MUTSITE(e) (PUT only puts, REMOVE only deletes).",
+	prop("C12", []string{"EXECONCE", "WRITEONCE", "PUTKEYFLOW", "KWFLAGS", "MUTSITE", "CHILDVISIT", "STMTLIST"},
+		"Structural necessary conditions of C12: EXECONCE (writes happen only while executed == false, which is set on every path after they start and reset only by Init), WRITEONCE (one storage write per PUT/REMOVE, outside any loop, with every expression evaluated before it), PUTKEYFLOW (each value expression sees its own pair's evaluated key; pairs reach BatchPut in statement order, untouched by any other call), KWFLAGS and CHILDVISIT(Validate) (the static restrictions are wired and every key/value expression is checked), MUTSITE(e) (PUT only puts, REMOVE only deletes). STMTLIST (the write plans receive the statement's own pair/key list: nothing is filtered out, so every pair is evaluated and a failing one fails the statement).",
 		"The store contents after the write depend on the caller's Storage.")
 	propTable["C12"].KeyFilter["MUTSITE"] = keyHas("MUTSITE|e|", "MUTSITE|c|")
 	propTable["C12"].KeyFilter["CHILDVISIT"] = keyHas("Validate")
 
-	prop("C13", []string{"MSTOR", "MUTSITE", "PARSEFIRST", "ERRPROP"},
-		"Structural necessary conditions of C13, decided for every function, path and call site of the package: MUTSITE (mutating Storage calls exist only inside the three writer plans; the closure of the SELECT builder with all methods of every plan type it can build has none; planning has none; parsing/checking reach no storage call at all), PARSEFIRST (no storage-reaching call before the parse/validate error test succeeded), ERRPROP (every error produced by a storage-reaching call is examined on every path and returned - itself or wrapped - on every failure path, with no further storage-reaching call and no loop continuation).",
+	prop("C13", []string{"MSTOR", "MUTSITE", "PARSEFIRST", "ERRPROP", "REJECTFIRST"},
+		"Structural necessary conditions of C13, decided for every function, path and call site of the package: MUTSITE (mutating Storage calls exist only inside the three writer plans; the closure of the SELECT builder with all methods of every plan type it can build has none; planning has none; parsing/checking reach no storage call at all), PARSEFIRST (no storage-reaching call before the parse/validate error test succeeded), ERRPROP (every error produced by a storage-reaching call is examined on every path and returned - itself or wrapped - on every failure path, with no further storage-reaching call and no loop continuation). REJECTFIRST (a statement rejected while its plan is built has not reached storage).",
 		"Nothing structural is left out; 'returns that error' is decided as 'the returned error is data-derived from it'. The caller's Storage implementation is outside the analysis.")
 
-	prop("C14", []string{"CHILDVISIT", "FUNCREG", "WHEREBOOL", "KWFLAGS", "MUTSITE", "PARSEFIRST", "LISTCOVER", "NOTWRAP", "CACHECOPY", "ADMIT", "ERRALL"},
-		"Structural necessary conditions of C14: CHILDVISIT (every Expression node's Check visits every child before any success return and returns the child's error, so a fault is seen at every syntactic position; every statement's Validate reaches Check on each of its expressions and the parser returns the validation error), NOTWRAP (the parser builds a `!` node for every `!` it consumes), FUNCREG (the function-call Check consults both registries and the arity), WHEREBOOL (SELECT and DELETE both type-check the WHERE expression and require a Boolean result), KWFLAGS (PUT forbids `value`, REMOVE forbids `key`/`value`), LISTCOVER(in) (what checkWithIn admits on the right of IN is handled by both executors), MUTSITE(d)+PARSEFIRST (rejection happens before any storage access).",
+	prop("C14", []string{"CHILDVISIT", "FUNCREG", "WHEREBOOL", "KWFLAGS", "MUTSITE", "PARSEFIRST", "LISTCOVER", "NOTWRAP", "CACHECOPY", "ADMIT", "ERRALL", "REJECTFIRST"},
+		"Structural necessary conditions of C14: CHILDVISIT (every Expression node's Check visits every child before any success return and returns the child's error, so a fault is seen at every syntactic position; every statement's Validate reaches Check on each of its expressions and the parser returns the validation error), NOTWRAP (the parser builds a `!` node for every `!` it consumes), FUNCREG (the function-call Check consults both registries and the arity), WHEREBOOL (SELECT and DELETE both type-check the WHERE expression and require a Boolean result), KWFLAGS (PUT forbids `value`, REMOVE forbids `key`/`value`), LISTCOVER(in) (what checkWithIn admits on the right of IN is handled by both executors), MUTSITE(d)+PARSEFIRST (rejection happens before any storage access). REJECTFIRST (while the plan is built, every rejection is produced before the first storage operation, in every function of that phase including each plan's Init).",
 		"Completeness and soundness of the operand typing rules themselves are value/type-level facts not decided here.")
 	propTable["C14"].KeyFilter["MUTSITE"] = keyHas("MUTSITE|d|")
 	propTable["C14"].KeyFilter["LISTCOVER"] = keyHas("|in|")
@@ -116,9 +117,11 @@ func init() {
 	propTable["C17"].KeyFilter["OP2TABLE"] = keyHas("|query|", "|pos")
 	propTable["C17"].KeyFilter["USERIDX"] = keyHas("outputQueryAndErrPos")
 
-	prop("C18", []string{"PLANMAP", "MUTSITE", "SELECTMINMAX", "ROLECHAIN", "NOREADAFTEREXIT", "NARROWONLYKEY", "ROUTE", "RANGEALG"},
-		"Structural necessary conditions of C18: PLANMAP (EMPTY reads nothing, MGET uses point reads only and all keys, PREFIX/RANGE use the matching cursor plan, and the chosen access path is not replaced later), MUTSITE(e) (the point-read plan calls only Get, the empty plan nothing), SELECTMINMAX(AND) (a conjunction falls back to the narrower operand), ROLECHAIN (seek to the region start, stop at the first key beyond the inclusive end / without the prefix), NOREADAFTEREXIT (no further cursor read after the region was left), ROUTE/NARROWONLYKEY (equality and IN produce point regions).",
+	prop("C18", []string{"PLANMAP", "MUTSITE", "SELECTMINMAX", "ROLECHAIN", "NOREADAFTEREXIT", "NARROWONLYKEY", "ROUTE", "RANGEALG", "PREFIXALG", "ERRPROP"},
+		"Structural necessary conditions of C18: PLANMAP (EMPTY reads nothing, MGET uses point reads only and all keys, PREFIX/RANGE use the matching cursor plan, and the chosen access path is not replaced later), MUTSITE(e) (the point-read plan calls only Get, the empty plan nothing), SELECTMINMAX(AND) (a conjunction falls back to the narrower operand), ROLECHAIN (seek to the region start, stop at the first key beyond the inclusive end / without the prefix), NOREADAFTEREXIT (no further cursor read after the region was left), ROUTE/NARROWONLYKEY (equality and IN produce point regions). PREFIXALG (AND of a prefix with a prefix, range or key set reads nothing when the operands share no key), ERRPROP on the scan plans (a failed Seek or cursor creation is not followed by reads from an unpositioned cursor).",
 		"That intersection* returns a region inside both operands depends on order relations among literals (DESIGN.md §6).")
+	propTable["C18"].KeyFilter["PREFIXALG"] = keyHas("|tight", "|interpretable")
+	propTable["C18"].KeyFilter["ERRPROP"] = keyHas("ScanPlan", "MultiGetPlan")
 	propTable["C18"].KeyFilter["MUTSITE"] = keyHas("MUTSITE|e|")
 	propTable["C18"].KeyFilter["SELECTMINMAX"] = keyHas("|AND|")
 	propTable["C18"].KeyFilter["RANGEALG"] = keyHas("|tight", "|interpretable")
